@@ -39,10 +39,6 @@ func runC15(c *Ctx) {
 	self := "call<(*repo/pkg/merkle.Hasher).Hash>"
 	var split, leafFn, nodeFn, emptyFn *ssa.Function
 
-	e0 := plainEdges(edgesMatching(b, "bin<==>(len(p1), 0)"))
-	e1 := plainEdges(edgesMatching(b, "bin<==>(len(p1), 1)"))
-	n0 := plainEdges(edgesMatching(b, "bin<!=>(len(p1), 0)"))
-	n1 := plainEdges(edgesMatching(b, "bin<!=>(len(p1), 1)"))
 	nEmpty, nLeaf, nNode := 0, 0, 0
 	var nodeHelper *ssa.Function
 	hashFn := fn
@@ -52,18 +48,42 @@ func runC15(c *Ctx) {
 		fn  *ssa.Function
 		b   *ana.Builder
 		e   ana.Exit
-		pre func(gate []ana.Edge) bool
+		pre func(gate int) bool // the exit lies behind the length gate e0 / e1 / n0 / n1 (in Hash, or in the helper it hands over to)
 	}
+	const e0, e1, n0, n1 = 0, 1, 2, 3
+	lenGates := func(b *ana.Builder) [][]ana.Edge {
+		return [][]ana.Edge{
+			plainEdges(edgesMatching(b, "bin<==>(len(p1), 0)")), plainEdges(edgesMatching(b, "bin<==>(len(p1), 1)")),
+			plainEdges(edgesMatching(b, "bin<!=>(len(p1), 0)")), plainEdges(edgesMatching(b, "bin<!=>(len(p1), 1)")),
+		}
+	}
+	gates := lenGates(b)
 	var items []exitIn
 	for _, e := range ana.Exits(fn) {
 		e := e
-		direct := exitIn{fn, b, e, func(gate []ana.Edge) bool { return exitMustPass(fn, e, gate) }}
+		direct := exitIn{fn, b, e, func(gate int) bool { return exitMustPass(fn, e, gates[gate]) }}
 		if !e.Panic {
 			var res []*ana.Term
 			for _, rv := range e.Results {
 				res = append(res, b.Of(rv, e.Instr))
 			}
 			if call := tailCall(res); call != nil {
+				// Hash settles the empty tree itself and hands every non-empty list, whole, to a helper that recurses into
+				// itself: for a non-empty list Hash *is* that helper, and the helper's own parts are non-empty (0 < k < len,
+				// C15.split-helper), so the recursion target of the rules below is the helper
+				if h := calleeOf(call); h != nil && h != fn && h.Blocks != nil && ana.InRepo(h) && len(call.Args) == len(h.Params) && nodeHelper == nil &&
+					matches("call<*>(p0, p1)", call) && exitMustPass(fn, e, gates[n0]) && sigKey(h) == sigKey(fn) {
+					r.Fn(ana.ShortFunc(h))
+					hb := c.boundBuilder(call)
+					hg := lenGates(hb)
+					for _, e2 := range ana.Exits(h) {
+						e2 := e2
+						items = append(items, exitIn{h, hb, e2, func(gate int) bool { return direct.pre(gate) || exitMustPass(h, e2, hg[gate]) }})
+					}
+					nodeHelper = h
+					self = "call<" + h.String() + ">"
+					continue
+				}
 				if h := calleeOf(call); h != nil && h != fn && h.Blocks != nil && ana.InRepo(h) && len(call.Args) == len(h.Params) && matches("call<*>(p0, slice(p1, 0, _), slice(p1, _, none))", call) {
 					r.Fn(ana.ShortFunc(h))
 					hb := c.boundBuilder(call)
